@@ -1,6 +1,9 @@
-(* Run/RunC10.v — case interpreter for C10: access traces of the drivers. *)
-From Coq Require Import ZArith List.
-From Tevec Require Import Base.Prelude Model.Driver Model.Kernels Run.Codec.
+(* Run/RunC10.v — case interpreters for C10: access traces of the drivers (run_trace) and, step by step, of
+   the rescanning kernels and of vrank (run_ksteps, run_ksteps2, run_vrank_segs) at the float carrier. *)
+From Coq Require Import ZArith List Floats.
+From Tevec Require Import Base.Prelude Base.Num Base.F64 Model.Driver Model.Features Model.Cmp Model.Norm
+     Model.Binary Model.Reg Model.Kernels Model.SortCmp Model.Rank Model.KernelsMap Model.KernelSteps Model.KernelsMapFast
+     Run.Codec.
 Import ListNotations.
 
 Definition zn := Z.of_nat.
@@ -35,3 +38,79 @@ Definition run_trace (kind : Z) (w len len2 : nat) : list Z :=
           else flat_map enc_acc (trace_custom2 w len ++ trace_write len)
    | _ => guard []
    end)%Z.
+
+(* =====================================================================================================
+   Kernel traces, cell by cell.  One step = one callback invocation (Model/KernelSteps.v):
+       [number of driver reads] driver reads (in order)  callback reads (SORTED multiset)  write  [panic]  SEP
+   then, after the last step, the status of the erased model run: the number of outputs, or the panic.
+   An access is numbered by `acc_num` (= enc_acc above).  Proofs/KernelSteps.v: the steps concatenate to
+   `kernel_trace`, step i is position i, the sorted numbers are a permutation of the callback's reads.   *)
+Definition enc_step (k : kstep) : list Z :=
+  c_int (zn (length (ks_drv k))) ++ flat_map enc_acc (ks_drv k)
+  ++ flat_map c_int (read_nums (ks_cb k))
+  ++ flat_map enc_acc (ks_wr k)
+  ++ (match ks_panic k with Some pk => c_panic pk | None => [] end)
+  ++ c_sep.
+Definition enc_status {O} (o : outcome O) : list Z :=
+  match o with
+  | Done l => c_nat (length l)
+  | Uninit _ => c_uninit
+  | Panicked k => c_panic k
+  end.
+
+Definition f64_max : float := fl 9007199254740991 971.
+Definition f64_min : float := fl (-9007199254740991) 971.
+
+(* fn: 0 ts_vmin, 1 ts_vmax, 2 ts_vargmin, 3 ts_vargmax, 4 ts_vrank (pct, rev), 5 ts_vminmaxnorm;
+   body = true: two-phase index body (caller buffer), false: iterator body (returned)                *)
+Definition run_ksteps (fn : Z) (body : bool) (w : nat) (mp : option nat) (pct rev : bool) (xs : list float)
+  : list Z :=
+  (match fn with
+   | 0 => flat_map enc_step (steps_ts_vext (DT := IsNoneF64) sort_cmp body w mp xs)
+            ++ enc_status (ts_vmin (DT := IsNoneF64) body w mp xs)
+   | 1 => flat_map enc_step (steps_ts_vext (DT := IsNoneF64) sort_cmp_rev body w mp xs)
+            ++ enc_status (ts_vmax (DT := IsNoneF64) body w mp xs)
+   | 2 => flat_map enc_step (steps_ts_varg (DT := IsNoneF64) sort_cmp body w mp xs)
+            ++ enc_status (ts_vargmin (DT := IsNoneF64) body w mp xs)
+   | 3 => flat_map enc_step (steps_ts_varg (DT := IsNoneF64) sort_cmp_rev body w mp xs)
+            ++ enc_status (ts_vargmax (DT := IsNoneF64) body w mp xs)
+   | 4 => flat_map enc_step (steps_ts_vrank (DT := IsNoneF64) (B := float) body w mp pct rev xs)
+            ++ enc_status (ts_vrank (DT := IsNoneF64) (B := float) body w mp pct rev xs)
+   | _ => flat_map enc_step (steps_ts_vminmaxnorm (DT := IsNoneF64) f64_min f64_max body w mp xs)
+            ++ enc_status (ts_vminmaxnorm (DT := IsNoneF64) f64_min f64_max body w mp xs)
+   end)%Z.
+
+(* fn: 0 ts_vregx_resid_mean, 1 .._std, 2 .._skew; the second series may be shorter or longer.
+   MODEL CORNER (reported in notes/C10.md, Model/Driver.v is a shared file and is left as it is):
+   `rolling2_apply_idx_default` tests `bad_window` on the ZIPPED series, the code asserts
+   `window > 0 || self.is_empty()` on SELF.  They differ exactly when window = 0, self is non-empty and the
+   second series is empty (iterator body): the code panics (assert), the model returns Done [].  No access
+   happens on either side.  The status emitted here follows the code in that corner (`resid_corner`).     *)
+Definition resid_corner (body : bool) (w : nat) (xs ys : list float) : bool :=
+  negb body && (w =? 0)%nat && negb (length xs =? 0)%nat && (length ys =? 0)%nat.
+Definition run_ksteps2 (fn : Z) (body : bool) (w : nat) (mp : option nat) (xs ys : list float) : list Z :=
+  let K := (match fn with 0 => RMean | 1 => RStd | _ => RSkew end)%Z in
+  flat_map enc_step (steps_ts_vregx_resid (A := float) (D1 := IsNoneF64) (D2 := IsNoneF64) K body w mp xs ys)
+  ++ (if resid_corner body w xs ys then c_panic AssertFail
+      else enc_status (ts_vregx_resid (A := float) (D1 := IsNoneF64) (D2 := IsNoneF64) K body w mp xs ys)).
+
+(* vrank: the observable trace cut at its writes.  A segment:
+       reads of the series since the previous write, as the SORTED multiset of the class representatives
+       (first index holding an equal element: an unstable sort may order equal elements either way)
+       the write: the class representative of the slot, then the raw slot  SEP
+   then the number of outputs.  Runs `vrank_tr_fast` (= vrank_tr, Proofs/KernelsMapFast.v: the same text with
+   a bind that evaluates its continuation once; vm_compute shares nothing and `tbind` costs 2^depth).   *)
+Definition same_f (a b : float) : bool := (PrimFloat.is_nan a && PrimFloat.is_nan b) || PrimFloat.eqb a b.
+Definition enc_wseg (xs : list float) (s : wseg) : list Z :=
+  flat_map c_int (read_nums (map (acc_rep same_f xs) (ws_reads s)))
+  ++ (match ws_write s with
+      | Some i => enc_acc (AUset (class_rep same_f xs i)) ++ enc_acc (AUset i)
+      | None => []
+      end)
+  ++ c_sep.
+Definition run_vrank_segs (pct rev : bool) (xs : list float) : list Z :=
+  flat_map (enc_wseg xs) (vrank_segs_fast (DT := IsNoneF64) (DX := IsNoneX_float) pct rev xs)
+  ++ (match snd (vrank_tr_fast (DT := IsNoneF64) (DX := IsNoneX_float) pct rev xs) with
+      | Ok l => c_nat (length l)
+      | Panic k => c_panic k
+      end).
